@@ -97,10 +97,10 @@ def check_case(case):
                                  observed=dict(failed=failed, outputs=obs.outputs), expected="an error"))
             else:
                 text = error_text(obs)
-                missing = [n for n in sorted(failed_nodes) if f"'{n}" not in text and f'"{n}' not in text
-                           and f"{n}(" not in text and f" {n} " not in text]
-                # a node counts as named when its name appears at all; be generous on the format
-                missing = [n for n in missing if n not in text]
+                # a failed job counts as named when the name of (one of) the node(s) computing it
+                # appears at all: identical jobs of two nodes are executed once, under one name
+                missing = [t for t in failed
+                           if not any(n in text for n in tok_nodes.get(t, set()))]
                 if missing:
                     recs.append(dict(signature="error-does-not-name-every-failed-job",
                                      observed=dict(failed_nodes=sorted(failed_nodes), missing=missing,
